@@ -156,30 +156,41 @@ def covered (F : Nat) (c : Ctx) : Bool :=
 
 def ubFuel : Nat := 100000000
 
+/-- construction: every node of `order`, then `set_arrow_to_program` for programs -/
+def buildAll (F : Nat) (jt : JetTypes) (p : Plan) (order : List Nat) (program : Bool) :
+    Except UBRes Built :=
+  match construct F jt p { ctx := {}, arrows := Array.replicate p.size none } order with
+  | .error r => .error r
+  | .ok st =>
+    match (st.arrows[p.size - 1]?).join with
+    | none => .error .badPlan
+    | some rootArrow =>
+      if program then
+        match UB.runOps F st.ctx (programOps rootArrow st.ctx.elems.size) with
+        | .error e => .error (.ofErr e)
+        | .ok c => .ok { ctx := c, arrows := st.arrows }
+      else .ok st
+
+/-- finalisation: `finalize_types_non_program` visits the construct DAG in post order from the root
+and finalises every node's arrow; the harness then finalises the arrow of every constructed node,
+by index, and reads the types -/
+def finalizeAll (F : Nat) (p : Plan) (st : Built) : UBRes :=
+  match finalizeNodes F st.arrows st.ctx (postOrder p (p.size + 1) (p.size - 1) []) with
+  | .error e => .ofErr e
+  | .ok (c, _) =>
+    match finalizeNodes F st.arrows c (List.range p.size) with
+    | .error e => .ofErr e
+    | .ok (c, out) =>
+      .ok ((Array.range p.size).map fun i =>
+            (out.find? (·.1 = i)).map fun r => (tyOfInf r.2.1, tyOfInf r.2.2))
+          (covered F c)
+
 /-- inference as the library runs it.  `order`: the construction order (children before parents);
 `program`: `finalize_types` (root forced to `1 → 1`) instead of `finalize_types_non_program`. -/
 def inferUBWith (F : Nat) (jt : JetTypes) (p : Plan) (order : List Nat) (program : Bool) : UBRes :=
-  match construct F jt p { ctx := {}, arrows := Array.replicate p.size none } order with
+  match buildAll F jt p order program with
   | .error r => r
-  | .ok st =>
-    let root := p.size - 1
-    match (st.arrows[root]?).join with
-    | none => .badPlan
-    | some rootArrow =>
-      match (if program then UB.runOps F st.ctx (programOps rootArrow st.ctx.elems.size) else .ok st.ctx) with
-      | .error e => .ofErr e
-      | .ok c =>
-        -- `finalize_types_non_program`: post order from the root
-        match finalizeNodes F st.arrows c (postOrder p (p.size + 1) root []) with
-        | .error e => .ofErr e
-        | .ok (c, _) =>
-          -- the harness then finalises the arrow of every constructed node, by index
-          match finalizeNodes F st.arrows c (List.range p.size) with
-          | .error e => .ofErr e
-          | .ok (c, out) =>
-            .ok ((Array.range p.size).map fun i =>
-                  (out.find? (·.1 = i)).map fun (_, s, t) => (tyOfInf s, tyOfInf t))
-                (covered F c)
+  | .ok st => finalizeAll F p st
 
 def inferUB (jt : JetTypes) (p : Plan) (order : List Nat) (program : Bool) : UBRes :=
   inferUBWith ubFuel jt p order program
